@@ -11,6 +11,7 @@
 #include <unistd.h>
 #include <pthread.h>
 #include <sys/socket.h>
+#include <fcntl.h>
 #include <gmssl/sm2.h>
 #include <gmssl/sm3.h>
 #include <gmssl/sm4.h>
@@ -113,10 +114,13 @@ static void do_op(int kind, uint64_t *st, SM3_CTX *acc, int t)
 // ---- streaming workload: every thread owns ONE multi-call object (hash, MAC, KDF, CBC, CTR, GCM encrypt / decrypt, ZUC, base64, SM2 / SM9 signing context); operation k
 // is its k-th call (k = 0: init and a first piece, last k: a last piece and finish, in between: one piece).  Interleaving the calls of different threads' objects is then
 // exactly what a schedule does -- state hidden behind the contexts (a static table keyed by nothing, a shared scratch block) changes somebody's result ----
-#define NSTREAM 10
-static const char *skinds[NSTREAM] = { "st-sm3", "st-hmac", "st-kdf", "st-cbc", "st-ctr", "st-gcmenc", "st-gcmdec", "st-zuc", "st-b64", "st-sm2sign" };
+#define NSTREAM 11
+static const char *skinds[NSTREAM] = { "st-sm3", "st-hmac", "st-kdf", "st-cbc", "st-ctr", "st-gcmenc", "st-gcmdec", "st-zuc", "st-b64", "st-sm2sign", "st-nbrec" };
 typedef struct { int fam; uint8_t key[32], iv[16], aad[20], msg[2048]; size_t mlen, off; SM3_CTX sm3; SM3_HMAC_CTX hmac; SM3_KDF_CTX kdf; SM4_CBC_CTX cbc; SM4_CTR_CTX ctr; SM4_GCM_CTX gcm;
-	ZUC_CTX zuc; BASE64_CTX b64; SM2_SIGN_CTX sign; SM2_KEY sk; uint8_t ct[2048 + 64]; size_t ctlen, ctoff; } STREAM;
+	ZUC_CTX zuc; BASE64_CTX b64; SM2_SIGN_CTX sign; SM2_KEY sk; uint8_t ct[2048 + 64]; size_t ctlen, ctoff; int rd, wr, pending; uint8_t rec[5 + 2048], rbuf[TLS_MAX_RECORD_SIZE]; size_t reclen, cut; } STREAM;
+// st-nbrec: the object is a record stream on a NON-BLOCKING socket.  Each call offers the first octets of a record, lets the rest arrive a few milliseconds later (a helper that belongs
+// to the call) and asks tls_record_recv once: the record layer waits for the rest of a record it has begun and returns that stream's record, whatever other streams are doing.
+static void *nbrec_feeder(void *arg) { STREAM *s = arg; usleep(3000); if (write(s->wr, s->rec + s->cut, s->reclen - s->cut) != (ssize_t)(s->reclen - s->cut)) perror("thrdrv: feeder"); return NULL; }
 static void stream_phase(STREAM *s, int k, int K, uint64_t *st, SM3_CTX *acc)
 {
 	ones = 0; int rc; uint8_t out[4096]; size_t ol = 0; int ilen = 0;
@@ -133,6 +137,7 @@ static void stream_phase(STREAM *s, int k, int K, uint64_t *st, SM3_CTX *acc)
 			  if (rc == 1) rc = sm4_gcm_decrypt_init(&s->gcm, s->key, 16, s->iv, 12, s->aad, 20, 16); ACCI(rc); break; }
 		case 7: rc = zuc_encrypt_init(&s->zuc, s->key, s->iv); ACCI(rc); break;
 		case 8: base64_encode_init(&s->b64); ACCI(1); break;
+		case 10: { int sp[2]; rc = socketpair(AF_UNIX, SOCK_STREAM, 0, sp) == 0 ? 1 : -1; s->rd = sp[0]; s->wr = sp[1]; s->pending = 0; fcntl(s->rd, F_SETFL, fcntl(s->rd, F_GETFL) | O_NONBLOCK); ACCI(rc); break; }
 		default: { uint8_t d[32]; memcpy(d, s->key, 32); d[0] = 0x31; sm2_z256_t z; sm2_z256_from_bytes(z, d); sm2_key_set_private_key(&s->sk, z); rc = sm2_sign_init(&s->sign, &s->sk, SM2_DEFAULT_ID, SM2_DEFAULT_ID_LENGTH); ACCI(rc); break; }
 		}
 	}
@@ -148,6 +153,12 @@ static void stream_phase(STREAM *s, int k, int K, uint64_t *st, SM3_CTX *acc)
 	case 6: { size_t cl = s->ctlen - s->ctoff, cn = (k == K - 1) ? cl : cl / (size_t)(K - k); rc = sm4_gcm_decrypt_update(&s->gcm, s->ct + s->ctoff, cn, out, &ol); s->ctoff += cn; ACCI(rc); ACC(out, ol); break; }
 	case 7: rc = zuc_encrypt_update(&s->zuc, m, n, out, &ol); ACCI(rc); ACC(out, ol); break;
 	case 8: rc = base64_encode_update(&s->b64, m, (int)n, out, &ilen); ACCI(rc); ACC(out, (size_t)ilen); break;
+	case 10: { pthread_t th; int fed = 0; size_t rl = 0;
+		   if (!s->pending) { s->rec[0] = 23; s->rec[1] = 3; s->rec[2] = 3; s->rec[3] = (uint8_t)(n >> 8); s->rec[4] = (uint8_t)n; memcpy(s->rec + 5, m, n); s->reclen = 5 + n;
+			s->cut = (size_t[]){ 3, 1, 5, 4, 7, 2 }[(k + s->key[0]) % 6]; if (s->cut > s->reclen) s->cut = s->reclen;
+			if (write(s->wr, s->rec, s->cut) != (ssize_t)s->cut) perror("thrdrv: write"); if (s->cut < s->reclen) { pthread_create(&th, NULL, nbrec_feeder, s); fed = 1; } }
+		   rc = tls_record_recv(s->rbuf, &rl, s->rd); ACCI(rc); if (rc == 1) { ACC(s->rbuf, rl); ACCI(rl == s->reclen && memcmp(s->rbuf, s->rec, rl) == 0 ? 1 : -7); s->pending = 0; } else s->pending = 1;
+		   if (fed) pthread_join(th, NULL); break; }
 	default: rc = sm2_sign_update(&s->sign, m, n); ACCI(rc); break;
 	}
 	s->off += n;
@@ -162,6 +173,7 @@ static void stream_phase(STREAM *s, int k, int K, uint64_t *st, SM3_CTX *acc)
 		case 6: rc = sm4_gcm_decrypt_finish(&s->gcm, out, &ol); ACCI(rc); ACC(out, ol); break;           // the genuine tag must be accepted
 		case 7: rc = zuc_encrypt_finish(&s->zuc, out, &ol); ACCI(rc); ACC(out, ol); break;
 		case 8: base64_encode_finish(&s->b64, out, &ilen); ACC(out, (size_t)ilen); break;
+		case 10: close(s->rd); close(s->wr); break;
 		default: { size_t sl = 0; rc = sm2_sign_finish(&s->sign, out, &sl); ACCI(rc); SM2_VERIFY_CTX vc; rc = sm2_verify_init(&vc, &s->sk, SM2_DEFAULT_ID, SM2_DEFAULT_ID_LENGTH); if (rc == 1) rc = sm2_verify_update(&vc, s->msg, s->mlen);
 			   if (rc == 1) rc = sm2_verify_finish(&vc, out, sl); ACCI(rc); break; }        // signatures are randomised: what is compared is that the stream verifies
 		}
